@@ -1,6 +1,7 @@
 package gw
 
 import (
+	"github.com/andydunstall/piko/pkg/gossip"
 	"verifharness/internal/mc"
 )
 
@@ -210,6 +211,7 @@ func S8(maxPacket, ops, digests, dups, holds int) *Scenario {
 		Digests: [][2]int{{1, 0}, {0, 1}}, MaxDigests: digests,
 		Perms: "id", MaxDups: dups, MaxInflight: 3, MaxHolds: holds,
 		Joins: [][2]int{{0, 1}}, MaxJoins: 1,
+		WritesAfterLeave: true,
 		Oracles: OracleSet{C02: true, C14: true},
 	}
 }
@@ -238,7 +240,7 @@ func S10(maxPacket, ops, digests, dups, holds int) *Scenario {
 	return &Scenario{
 		Name: "S10-cold-join", IDs: []string{"nX", "nO", "nQ"}, MaxPacket: maxPacket,
 		Ops: map[int][]Event{
-			0: {{Kind: "up", K: "a", V: "1"}, {Kind: "up", K: "b", V: "1"}, {Kind: "del", K: "a"}},
+			0: {{Kind: "up", K: "a", V: "1"}, {Kind: "up", K: "b", V: "1"}, {Kind: "del", K: "a"}, {Kind: "up", K: "a", V: ""}},
 			1: {{Kind: "up", K: "c", V: "1"}},
 		},
 		MaxOps:  map[int]int{0: ops, 1: 1},
@@ -246,6 +248,42 @@ func S10(maxPacket, ops, digests, dups, holds int) *Scenario {
 		Perms: "id", MaxDups: dups, MaxInflight: 3, MaxHolds: holds,
 		Joins: [][2]int{{0, 1}, {1, 0}, {2, 1}, {0, 2}}, MaxJoins: 2,
 		Echo: []int{0}, MaxEcho: 1,
+		Oracles: OracleSet{C02: true, C14: true},
+	}
+}
+
+// ExactFitValue returns a value v such that the delta datagram nX sends for
+// its single entry k=v at the given version is exactly size bytes long.
+func ExactFitValue(k string, version uint64, size int) string {
+	for l := 1; l < size; l++ {
+		v := string(make([]byte, l))
+		b := []byte(v)
+		for i := range b {
+			b[i] = 'f'
+		}
+		v = string(b)
+		enc, err := gossip.VEncodeDelta(gossip.VDeltaHeader{NodeID: "nX", Addr: addrOf(0)},
+			gossip.VDelta{{ID: "nX", Addr: addrOf(0), Entries: []gossip.Entry{{Key: k, Value: v, Version: version}}}}, 1<<20)
+		if err == nil && len(enc) == size {
+			return v
+		}
+	}
+	panic("gw: no value makes the datagram exactly the packet size")
+}
+
+// S11: datagrams that are exactly as large as the maximum packet size: the
+// owner writes a small key, then one whose delta fills a datagram to the last
+// byte, then another small one.
+func S11(maxPacket, ops, digests, dups, holds int) *Scenario {
+	return &Scenario{
+		Name: "S11-exact-fit", IDs: []string{"nX", "nO"}, MaxPacket: maxPacket,
+		Init: []Event{ev("join", 1, 0)},
+		Ops: map[int][]Event{0: {
+			{Kind: "up", K: "a", V: "1"}, {Kind: "up", K: "b", V: ExactFitValue("b", 2, maxPacket)}, {Kind: "up", K: "c", V: "1"},
+		}},
+		MaxOps:  map[int]int{0: ops},
+		Digests: [][2]int{{1, 0}, {0, 1}}, MaxDigests: digests,
+		Perms: "id", MaxDups: dups, MaxInflight: 3, MaxHolds: holds,
 		Oracles: OracleSet{C02: true, C14: true},
 	}
 }
@@ -283,6 +321,8 @@ func Build(p Params) *Scenario {
 		sc = S9(p.MaxPacket, p.Ops, p.Digests, p.Dups, p.Holds)
 	case "S10":
 		sc = S10(p.MaxPacket, p.Ops, p.Digests, p.Dups, p.Holds)
+	case "S11":
+		sc = S11(p.MaxPacket, p.Ops, p.Digests, p.Dups, p.Holds)
 	default:
 		panic("unknown scenario " + p.Name)
 	}
